@@ -12,7 +12,7 @@ CONSTANTS
   MaxSteps = 2
   Pool = "tiny"
   Ordered = FALSE
-  Modes = {"default", "single", "uniform", "random", "mutate", "area"}
+  Modes = {"default", "single", "uniform", "random", "mutate", "area", "trunc"}
   Kinds = {1, 4, 6, 7, 8, 10, 14}
   Salts = {1, 2}
   Density = 3
@@ -20,6 +20,6 @@ CONSTANTS
   Seed = 1
   Avoid = TRUE
   Showcase = FALSE
-INVARIANTS LayoutLegal CanonicalLegal MeaningShape AreaSane
+INVARIANTS LayoutLegal CanonicalLegal MeaningShape AreaSane CharSane
 VIEW View
 CHECK_DEADLOCK FALSE
